@@ -770,6 +770,14 @@ got_m:
         m = (qthread_addrstat_t *)qt_hash_get_locked(FEBs[lockbin], (void *)alignedaddr);
         if (m) {
             QTHREAD_FASTLOCK_LOCK(&m->lock);
+        } else {
+            /* no record (full, no waiters): store while the stripe is still locked, so that
+             * no call that creates the record can slip in between the lookup and the store */
+            if (dest && (dest != src)) {
+                memcpy(dest, src, sizeof(aligned_t));
+            }
+            qt_hash_unlock(FEBs[lockbin]);
+            return QTHREAD_SUCCESS;
         }
     }
     qt_hash_unlock(FEBs[lockbin]);    /* unlock hash */
@@ -868,7 +876,13 @@ int API_FUNC qthread_purge_to(aligned_t *restrict       dest,
             COMPILER_FENCE;
             qassertnot(qt_hash_put_locked(FEBbin, (void *)alignedaddr, m), 0);
             qthread_debug(FEB_DETAILS, "dest=%p src=%p (tid=%i): inserted m=%p\n", dest, src, qthread_id(), m);
-            m = NULL;
+            /* store before the stripe is unlocked: afterwards the word can be filled by anyone */
+            if (dest && (dest != src)) {
+                *(aligned_t *)dest = *(aligned_t *)src;
+                MACHINE_FENCE;
+            }
+            qt_hash_unlock(FEBbin);
+            return QTHREAD_SUCCESS;
         } else {
             /* it could be either full or not, don't know */
             qthread_debug(FEB_DETAILS, "dest=%p src=%p (tid=%i): found m=%p\n", dest, src, qthread_id(), m);
@@ -1144,6 +1158,14 @@ int API_FUNC qthread_writeFF(aligned_t *restrict       dest,
         m = (qthread_addrstat_t *)qt_hash_get_locked(FEBs[lockbin], (void *)alignedaddr);
         if (m) {
             QTHREAD_FASTLOCK_LOCK(&m->lock);
+        } else {
+            /* no record (full, no waiters): access the word while the stripe is still locked */
+            if (dest && (dest != src)) {
+                *(aligned_t *)dest = *(aligned_t *)src;
+                MACHINE_FENCE;
+            }
+            qt_hash_unlock(FEBs[lockbin]);
+            return QTHREAD_SUCCESS;
         }
     }
     qt_hash_unlock(FEBs[lockbin]);
@@ -1243,6 +1265,14 @@ int API_FUNC qthread_readFF(aligned_t *restrict       dest,
         m = (qthread_addrstat_t *)qt_hash_get_locked(FEBs[lockbin], (void *)alignedaddr);
         if (m) {
             QTHREAD_FASTLOCK_LOCK(&m->lock);
+        } else {
+            /* no record (full, no waiters): access the word while the stripe is still locked */
+            if (dest && (dest != src)) {
+                *(aligned_t *)dest = *(aligned_t *)src;
+                MACHINE_FENCE;
+            }
+            qt_hash_unlock(FEBs[lockbin]);
+            return QTHREAD_SUCCESS;
         }
     }
     qt_hash_unlock(FEBs[lockbin]);
@@ -1330,6 +1360,14 @@ got_m:
         m = (qthread_addrstat_t *)qt_hash_get_locked(FEBs[lockbin], (void *)alignedaddr);
         if (m) {
             QTHREAD_FASTLOCK_LOCK(&m->lock);
+        } else {
+            /* no record (full, no waiters): access the word while the stripe is still locked */
+            if (dest && (dest != src)) {
+                *(aligned_t *)dest = *(aligned_t *)src;
+                MACHINE_FENCE;
+            }
+            qt_hash_unlock(FEBs[lockbin]);
+            return QTHREAD_SUCCESS;
         }
     }
     qt_hash_unlock(FEBs[lockbin]);
